@@ -309,6 +309,17 @@ theorem C11_non_integer_mode_refused (T : Tables K) (e : Expr) (v : Val K) (hv :
   | list _ => rfl
   | rrt _ => rfl
 
+/-- … whatever the statement is: an ordinary operation or the call of an included program or template (the
+include dictionary `incs` is arbitrary; the modes are checked before it is consulted) -/
+theorem C11_non_integer_mode_refused_in_any_statement (o : SetOrder Int) (incs : Includes K) (T : Tables K) (s : Stmt)
+    (m : Expr) (hm : m ∈ s.modes) (v : Val K) (hv : evalExpr T m = .ok v)
+    (hni : (∀ i, v ≠ .atom (.num (.int i))) ∧ (∀ b, v ≠ .atom (.bool b))) :
+    ∃ err, stmtEffect o incs T s = .error err := by
+  have : ∃ err, s.modes.mapM (evalMode T) = .error err :=
+    mapM_fails _ _ m hm ⟨_, C11_non_integer_mode_refused T m v hv hni⟩
+  obtain ⟨err, he⟩ := this
+  exact ⟨err, by simp [stmtEffect, he, bind, Except.bind]⟩
+
 /-! ### complex values for int / float variables and arrays -/
 
 theorem C11_complex_scalar_refused (re im : K) :
